@@ -772,7 +772,7 @@ class ServerOptions(Options):
 
             from supervisor.events import EventTypes
             pool_events = []
-            for pool_event_name in pool_event_names:
+            for pool_event_name in sorted(pool_event_names):
                 pool_event = getattr(EventTypes, pool_event_name, None)
                 if pool_event is None:
                     raise ValueError('Unknown event type %s in [%s] events' %
